@@ -18,13 +18,22 @@ for d in sorted(glob.glob(os.path.join(V, 'seeded', '*'))):
                 if line.startswith('#'):
                     what = line.lstrip('# ').strip()
                     break
-    runs = m.get('checks_run_quick', '')
+    fr = m.get('final_rerun')
+    runs = fr['quick_checks'] if isinstance(fr, dict) else m.get('checks_run_quick', '')
+    first = m.get('checks_run_quick', '')
     caught = []
     missed = []
     for mm in re.finditer(r'(C\d+):exit=(\d+)', runs):
         (caught if mm.group(2) == '1' else missed).append(mm.group(1))
-    rows.append((name, what[:150], ', '.join(caught) or '—', ', '.join(missed) or '—'))
-print('| seeded change | what it does | caught by (quick tier) | not caught by |')
+    first_missed = [mm.group(1) for mm in re.finditer(r'(C\d+):exit=0', first)] if isinstance(fr, dict) else []
+    note = ''
+    own = m.get('property')
+    if own in first_missed and own in caught:
+        note = ' (after the check was strengthened; missed when first run)'
+    if isinstance(fr, str):
+        note = ' (' + fr + ')'
+    rows.append((name, what[:150], (', '.join(caught) or '—') + note, ', '.join(missed) or '—'))
+print('| seeded change | what it does | caught by (quick tier, final /repo HEAD) | not caught by |')
 print('|---|---|---|---|')
 for r in rows:
     print('| %s | %s | %s | %s |' % r)
